@@ -558,14 +558,35 @@ func (e *enumerator) stmt(s ast.Stmt, p Path, depth int, k kont) {
 					return
 				}
 				body(p2, func(p3 Path) {
-					// second evaluation of the condition: assumed false (one iteration)
-					q := p3
-					if e.c.Cond != nil {
-						if ev := e.c.Cond(v.Cond, false); ev != nil {
-							q = append(q, *ev)
+					// second evaluation of the condition: assumed false (one iteration). It goes through
+					// the same expansion as the first (predicate helpers, hoisted tests); a condition
+					// that is still a conjunction/disjunction afterwards is recorded as one outcome
+					c2 := v.Cond
+					if e.c.Expand != nil {
+						c2 = e.c.Expand(c2)
+					}
+					if be, ok := ast.Unparen(c2).(*ast.BinaryExpr); ok && (be.Op == token.LAND || be.Op == token.LOR) {
+						q := p3
+						if e.c.Cond != nil {
+							if ev := e.c.Cond(v.Cond, false); ev != nil {
+								q = append(q, *ev)
+							}
+						}
+						after(append(q, Event{Kind: "ENDLOOP"}))
+						return
+					}
+					if e.c.Info != nil {
+						if tv, ok := e.c.Info.Types[ast.Unparen(c2)]; ok && tv.Value != nil && tv.Value.Kind() == constant.Bool && constant.BoolVal(tv.Value) {
+							// `for true { ... }` is `for { ... }`: leaving it here is the cut of the unrolling
+							after(append(append(p3, Event{Kind: "CUT"}), Event{Kind: "ENDLOOP"}))
+							return
 						}
 					}
-					after(append(q, Event{Kind: "ENDLOOP"}))
+					e.cond(v.Cond, p3, depth, func(q Path, val bool) {
+						if !val {
+							after(append(q, Event{Kind: "ENDLOOP"}))
+						}
+					})
 				})
 			})
 		}
